@@ -154,8 +154,7 @@ theorem symm_unit (a b : List ℝ) : dist2U a b = dist2U b a := by
 
 theorem zero_iff_unit (a b : List ℝ) (ha : a.length = 3) (hb : b.length = 3)
     (na : norm2 a = 1) (nb : norm2 b = 1) : dist2U a b = 0 ↔ a = b := by
-  unfold dist2U
-  rw [sq_real, prim_acos, mul_self_eq_zero, Real.arccos_eq_zero]
+  rw [dist2U_eq, mul_self_eq_zero, Real.arccos_eq_zero]
   exact one_le_dot_iff a b (by rw [ha, hb]) na nb
 
 /-- away from coincident / antipodal pairs the reported gradient is the derivative along any direction -/
@@ -163,8 +162,9 @@ theorem grad_unit (a b v : List ℝ) (ha : a.length = 3) (hb : b.length = 3) (hv
     (hc : -1 < dot a b ∧ dot a b < 1) :
     HasDerivAt (fun t : ℝ => dist2U (vadd a (vscale t v)) b) (dot (dist2UGrad a b) v) 0 := by
   obtain ⟨hc1, hc2⟩ := hc
-  unfold dist2U dist2UGrad
-  simp only [sq_real, prim_acos, prim_sqrt]
+  -- the guard `1 - c² ≤ 0` is false, and `Real.arccos` absorbs the clamp (`dist2U_eq`)
+  rw [dist2UGrad_of_lt a b (by nlinarith)]
+  simp only [dist2U_eq]
   rw [dot_vscale_left]
   set c := dot a b with hcdef
   set d := dot v b with hd
@@ -186,6 +186,31 @@ theorem grad_unit (a b v : List ℝ) (ha : a.length = 3) (hb : b.length = 3) (hv
   refine h2.congr_deriv ?_
   rw [hx, dot_comm b v, ← hd, pow_two]
   norm_num; ring
+
+/-- at coincident unit vectors the reported gradient is the null vector, which is the derivative of the squared
+    distance along every tangent direction (as repaired: the quotient `acos c / sqrt (1 - c²)` is `0/0` there) -/
+theorem grad_unit_same (a v : List ℝ) (ha : a.length = 3) (hv : v.length = 3) (na : norm2 a = 1)
+    (hperp : dot v a = 0) :
+    dist2UGrad a a = [0.0, 0.0, 0.0] ∧
+    HasDerivAt (fun t : ℝ => dist2U (vadd a (vscale t v)) a) (dot (dist2UGrad a a) v) 0 := by
+  have haa : dot a a = 1 := na
+  have hg : dist2UGrad a a = [0.0, 0.0, 0.0] :=
+    dist2UGrad_of_guard a a (by rw [haa]; norm_num)
+  refine ⟨hg, ?_⟩
+  have hfun : (fun t : ℝ => dist2U (vadd a (vscale t v)) a) = fun _ => (0 : ℝ) := by
+    funext t
+    rw [dist2U_eq, dot_vadd_vscale a v a (by rw [hv, ha]) t, hperp, haa, mul_zero, add_zero,
+      Real.arccos_one, mul_zero]
+  have hz : dot (dist2UGrad a a) v = 0 := by
+    rw [hg]
+    match v, hv with
+    | [x, y, z], _ => simp; norm_num
+  rw [hfun, hz]
+  exact hasDerivAt_const (0:ℝ) (0:ℝ)
+
+/-- the clamp makes the distance between a unit vector and itself zero whatever the rounding of the product -/
+theorem unit_self_zero (a : List ℝ) (h : 1 ≤ dot a a) : dist2U a a = 0 := by
+  rw [dist2U_eq, Real.arccos_eq_zero.2 h, mul_zero]
 
 /-! ## quaternions (the constant `PI` instantiated with `Real.pi`) -/
 
